@@ -37,7 +37,7 @@ def pytest_configure(config):
     import skfem
     from skfem.mesh.mesh import Mesh
     from harness.project import conn_event, kind_of, find_scale, NVERT, KIND
-    from harness.refine_common import abstract, LogCapture
+    from harness.refine_common import abstract, LogCapture, warn_flags
 
     orig_refined = Mesh.refined
 
@@ -68,8 +68,8 @@ def pytest_configure(config):
                         _events['refine'].append({
                             'a': 'Refine' if uniform else 'Adapt', 'op': 'refine' if uniform else 'adapt', 'err': '',
                             'k': int(times_or_ix) if uniform else 0, 'marked': marked,
-                            'warned_s': int(any('subdomains' in r for r in cap.records)),
-                            'warned_b': int(any('boundaries' in r for r in cap.records)),
+                            'warned_s': warn_flags(cap.records)[0],
+                            'warned_b': warn_flags(cap.records)[1],
                             'pre': pre, 'post': post, 'test': os.environ.get('PYTEST_CURRENT_TEST', '')[:120]})
         except Exception:          # recording must never disturb the test
             pass
